@@ -34,7 +34,7 @@ func init() {
 			"(quick tier: a deterministic sixth of it); plus a seeded random stream of documents (1–5 templates from a segment grammar, 0–3 variables, up to 9 methods, sometimes a template and its " +
 			"trailing-slash twin; 0–3 document-level servers with different base paths from six shapes, path-item level servers on one or two path items in 22% of the documents) with " +
 			"requests built from the document's own templates and mutations of them, sent through the forms of every declared server. Observed per case: error kind, route template, method, " +
-			"operation identity, path parameters and the identity of Route.Server; after every routed request a second FindRoute with another declared method is made and the first route re-inspected. Non-trivial = the model reports a branch other than the bare not-found of a server-less document.",
+			"operation identity, path parameters and the identity of Route.Server; after every routed request further FindRoute calls are made on the same router (same URL with another declared method; the same remaining path through every other variable-free server of the list the matched server belongs to) and the first route is re-inspected (Method, Operation, Server, Path, PathItem, Spec). Non-trivial = the model reports a branch other than the bare not-found of a server-less document.",
 		Exhaustive: true,
 		Gen:        genC09,
 		Run:        runC09,
@@ -261,7 +261,80 @@ func runC09(c hx.Case) any {
 			}
 		}
 	}
+	// call sequence, second dimension: the same remaining path asked through every OTHER declared server of the list the
+	// matched server belongs to (state kept between calls: a stored route that is handed out and written per call)
+	if _, bad := out["mutatedByLaterCall"]; !bad && route.Server != nil {
+		if msg := c09ReuseOtherServers(c, b, req, route); msg != "" {
+			out["mutatedByLaterCall"] = msg
+		}
+	}
 	return out
+}
+
+// scheme, host, base path of a server URL without variables ("" scheme: relative server)
+func c09PlainServer(s *openapi3.Server) (scheme, host, base string, ok bool) {
+	if s == nil || strings.Contains(s.URL, "{") {
+		return
+	}
+	if strings.HasPrefix(s.URL, "/") {
+		return "", "", strings.TrimSuffix(s.URL, "/"), true
+	}
+	u, err := url.Parse(s.URL)
+	if err != nil || u.Scheme == "" || u.Host == "" {
+		return
+	}
+	return u.Scheme, u.Host, strings.TrimSuffix(u.EscapedPath(), "/"), true
+}
+
+func c09ReuseOtherServers(c hx.Case, b *c09Built, req *http.Request, route *routers.Route) string {
+	list := b.doc.Servers
+	found := false
+	for _, s := range list {
+		found = found || s == route.Server
+	}
+	if !found && route.PathItem != nil {
+		list = route.PathItem.Servers
+		for _, s := range list {
+			found = found || s == route.Server
+		}
+	}
+	if !found || len(list) < 2 {
+		return ""
+	}
+	_, _, base0, ok := c09PlainServer(route.Server)
+	ep := req.URL.EscapedPath()
+	if !ok || !strings.HasPrefix(ep, base0) {
+		return ""
+	}
+	rem := ep[len(base0):]
+	m0, op0, srv0, path0, pi0, spec0 := route.Method, route.Operation, route.Server, route.Path, route.PathItem, route.Spec
+	for _, o := range list {
+		if o == route.Server {
+			continue
+		}
+		scheme, host, base, ok := c09PlainServer(o)
+		if !ok {
+			continue
+		}
+		c2 := cloneCase(c)
+		if scheme != "" {
+			c2["abs"], c2["scheme"], c2["host"] = true, scheme, host
+		}
+		c09SetPath(c2, base+rem)
+		req2 := c09Request(c2)
+		if req2 == nil {
+			continue
+		}
+		route2, _, err2 := b.router.FindRoute(req2)
+		if route.Method != m0 || route.Operation != op0 || route.Server != srv0 || route.Path != path0 || route.PathItem != pi0 || route.Spec != spec0 {
+			return fmt.Sprintf("after FindRoute(%s %s) through server %s the route returned first names server %s, template %q, method %q",
+				req2.Method, req2.URL.String(), c09SrvRef(b.doc, o), c09SrvRef(b.doc, route.Server), route.Path, route.Method)
+		}
+		if err2 == nil && route2 != nil && route2 == route && route2.Server != nil {
+			return "two FindRoute calls through different servers returned the same *Route"
+		}
+	}
+	return ""
 }
 
 func c09SameParams(a, b any) bool {
@@ -320,7 +393,7 @@ func cmpC09(c hx.Case, impl any, reply map[string]any) hx.Verdict {
 	// implementation vs spec; a percent-encoded request is judged under both readings of "the request path" (escaped and
 	// decoded) and has to satisfy the property under one of them
 	if msg := jstr(im, "mutatedByLaterCall"); msg != "" {
-		return hx.Verdict{IM: false, IS: false, Detail: "a returned route does not keep the operation of its request: " + msg}
+		return hx.Verdict{IM: false, IS: false, Detail: "a returned route is changed by a later FindRoute on the same router: " + msg}
 	}
 	imDetail := v.Detail
 	c09Judge(c, im, kind, spec, &v)
